@@ -890,16 +890,90 @@ theorem leafCountIssues_pos (i : Issue) (r : List Issue) : 0 < leafCountIssues (
   rw [← leavesIssues_length (i :: r) []]
   exact List.length_pos_iff.mpr h
 
-/-- **c19_nonempty — FULL statement**: a non-empty error never formats to an empty report: Flatten,
-    Treeify, FormatError and Prettify each carry at least one message. -/
+/-! ### the "; "-join as a list of characters (used for PrettifyError here and in Proofs/C19Go.lean, C19Pretty.lean) -/
+
+theorem intercalate_cons2 (sep : List Char) (a b : List Char) (r : List (List Char)) :
+    sep.intercalate (a :: b :: r) = a ++ sep ++ sep.intercalate (b :: r) := by
+  simp [List.intercalate, List.intersperse]
+
+/-- a join with a non-empty separator is empty only for no segment, or one empty segment -/
+theorem intercalate_eq_nil_iff (sep : List Char) (hs : sep ≠ []) (xs : List (List Char)) :
+    sep.intercalate xs = [] ↔ xs = [] ∨ xs = [[]] := by
+  match xs with
+  | [] => simp [List.intercalate]
+  | [a] => simp [List.intercalate]
+  | a :: b :: r => rw [intercalate_cons2]; simp [hs]
+
+theorem semi_intercalate_eq_empty_iff (xs : List String) :
+    "; ".intercalate xs = "" ↔ xs = [] ∨ xs = [""] := by
+  rw [← String.toList_inj, String.toList_intercalate]
+  have h := intercalate_eq_nil_iff "; ".toList (by decide) (xs.map String.toList)
+  simp only [String.toList_empty] at *
+  rw [h]
+  constructor
+  · rintro (h | h)
+    · exact Or.inl (List.map_eq_nil_iff.mp h)
+    · right
+      cases xs with
+      | nil => simp at h
+      | cons x r =>
+        simp only [List.map_cons, List.cons.injEq, List.map_eq_nil_iff] at h
+        have : x = "" := String.toList_inj.mp (by simpa using h.1)
+        rw [this, h.2]
+  · rintro (h | h) <;> subst h <;> simp
+
+/-- **the exact region in which PrettifyError's report is the empty string**: one issue, filed at the
+    root, whose message (what the mapper / formatter returned for it) is empty.  Never for the
+    reports of the library's own formatter (its messages are non-empty: Proofs/C04Creators.lean
+    `default_message_nonempty`, and the run asks for every report of the default mapper to be non-empty). -/
+theorem c19_prettify_empty_iff (is : List Issue) :
+    prettify is = "" ↔ ∃ i, is = [i] ∧ i.path = [] ∧ i.msg = "" := by
+  unfold prettify
+  rw [semi_intercalate_eq_empty_iff]
+  cases is with
+  | nil => simp [prettySegs]
+  | cons i r =>
+    have hseg : prettySeg i = "" ↔ i.path = [] ∧ i.msg = "" := by
+      unfold prettySeg
+      cases hp : i.path with
+      | nil => simp
+      | cons s p =>
+        simp only [reduceCtorEq, false_and, iff_false]
+        intro h
+        have := congrArg String.toList h
+        simp at this
+    cases r with
+    | nil => simp [prettySegs, hseg]
+    | cons j r => simp [prettySegs]
+
+/-- **c19_nonempty — a non-empty error never formats to an empty report**: Flatten, Treeify and
+    FormatError carry at least one message, for every error; PrettifyError's report is not the empty
+    string when no message is (HYPOTHESIS `msg ≠ ""`: `Issue.msg` stands for mapper(issue), and a
+    user-supplied formatter may return ""; the full statement without it is false:
+    `c19_prettify_nonempty_full_false`; the exact region is `c19_prettify_empty_iff`). -/
 theorem c19_nonempty (is : List Issue) (h : is ≠ []) :
-    0 < (flatten is).count ∧ 0 < (treeify is).count ∧ (prettySegs is).length = is.length ∧
+    0 < (flatten is).count ∧ 0 < (treeify is).count ∧ ((∀ i ∈ is, i.msg ≠ "") → prettify is ≠ "") ∧
     0 < (formatError is).count := by
   cases is with
   | nil => exact absurd rfl h
   | cons i r =>
-    refine ⟨by simp [c19_flatten_count], by simp [c19_tree_count], by simp [prettySegs], ?_⟩
-    rw [c19_format_count]; exact leafCountIssues_pos i r
+    refine ⟨by simp [c19_flatten_count], by simp [c19_tree_count], ?_, ?_⟩
+    · intro hm he
+      obtain ⟨j, hj, _, hmsg⟩ := (c19_prettify_empty_iff _).mp he
+      exact hm j (by rw [hj]; simp) hmsg
+    · rw [c19_format_count]; exact leafCountIssues_pos i r
+
+example : (∀ i ∈ [Issue.mk .tooBig [.key "a"] "m1" [] [], .mk .custom [] "m2" [] []], i.msg ≠ "") := by
+  intro i hi; simp at hi; rcases hi with rfl | rfl <;> decide
+
+/-- the full statement for PrettifyError, without the hypothesis on the messages -/
+def c19_prettify_nonempty_full : Prop := ∀ is : List Issue, is ≠ [] → prettify is ≠ ""
+
+/-- witness: `PrettifyErrorWithFormatter(&ZodError{Issues: {{Code: custom}}}, f)` with `f` returning ""
+    is the empty string (re-derived on the real code by the run: entry-point variant `blank-formatter`) -/
+theorem c19_prettify_nonempty_full_false : ¬ c19_prettify_nonempty_full := by
+  intro h
+  exact h [.mk .custom [] "" [] []] (by simp) (by decide)
 
 /-- before the patch the error of a real failed `Union([String(),Int()]).Parse(true)` formatted to `{"_errors":[]}` -/
 theorem legacy_nonempty_false :
